@@ -464,6 +464,10 @@ def work(chunk_id, payload):
 def main():
     chk = R.Check(PROP, level="fault_enumeration")
     binary = chk.build("fi")
+    errs, seen = R.monitor_canaries({"fi": binary}, chk.workroot)
+    chk.harness_errors += errs
+    chk.counters["monitor_canaries_noticed"] = sum(1 for v in seen.values()
+                                                   if v)
     scripts = [(n_, t_) for n_, t_ in all_scripts(chk.seed) if t_]
     ngen = int((8 if chk.tier == "quick" else 96) * chk.args.scale)
     scripts += generated_scripts(chk.seed, ngen)
